@@ -84,11 +84,21 @@ Winch(m) ==
   /\ UNCHANGED <<st, reexec, mpid, holds, zombie, pidfile, sockfile, usr2Ignored, cause, lastExit>>
 
 (* HUP: reload; the master runs the configured number of workers again *)
+(* deviation "HupForgetsUpgrade": the reload re-initialises the upgrade bookkeeping (reexec_pid := 0): the master no
+   longer knows the master it started *)
 Hup(m) ==
   /\ st[m] = "up" /\ nsig < MaxSignals /\ nsig' = nsig + 1
   /\ workers' = [workers EXCEPT ![m] = IF "HupKeepsScale" \in Dev THEN @ ELSE 1]
   /\ wantServe' = [wantServe EXCEPT ![m] = TRUE]
-  /\ UNCHANGED <<st, reexec, mpid, holds, zombie, pidfile, sockfile, usr2Ignored, cause, lastExit>>
+  /\ reexec' = [reexec EXCEPT ![m] = IF "HupForgetsUpgrade" \in Dev THEN "none" ELSE @]
+  /\ UNCHANGED <<st, mpid, holds, zombie, pidfile, sockfile, usr2Ignored, cause, lastExit>>
+
+(* a worker of m leaves (max_requests, a crash, a timeout) and manage_workers() starts another one: no operator signal.
+   deviation "NoRespawnWhilePending": while the master it started is alive, m does not replace its workers *)
+Turnover(m) ==
+  /\ st[m] = "up" /\ workers[m] > 0
+  /\ workers' = [workers EXCEPT ![m] = IF "NoRespawnWhilePending" \in Dev /\ reexec[m] # "none" THEN 0 ELSE @]
+  /\ UNCHANGED <<st, reexec, mpid, holds, zombie, pidfile, sockfile, nsig, usr2Ignored, wantServe, cause, lastExit>>
 
 (* operator sends TERM / QUIT to a master: stop() + halt() *)
 Stop(m) ==
@@ -126,7 +136,7 @@ Promote(m) ==
   /\ pidfile' = [base |-> m, two |-> IF pidfile.two = m THEN "none" ELSE pidfile.two]
   /\ UNCHANGED <<st, reexec, holds, zombie, sockfile, nsig, usr2Ignored, svars>>
 
-Next == \E m \in M : USR2(m) \/ Boot(m) \/ BootFail(m) \/ Stop(m) \/ Reap(m) \/ Promote(m) \/ Winch(m) \/ Hup(m)
+Next == \E m \in M : USR2(m) \/ Boot(m) \/ BootFail(m) \/ Stop(m) \/ Reap(m) \/ Promote(m) \/ Winch(m) \/ Hup(m) \/ Turnover(m)
 Spec == Init /\ [][Next]_vars /\ \A m \in M : WF_vars(Boot(m) \/ BootFail(m)) /\ WF_vars(Reap(m)) /\ WF_vars(Promote(m))
 
 -----------------------------------------------------------------------------
